@@ -23,12 +23,13 @@ tvars == <<vars, l, cid, done, tcfg, tstore, tprev, tprevCreates, tstreak, tmap>
 
 Rec == TraceLog[l]
 
-Sum(p) == CASE p = "P1" -> "S1" [] p = "P2" -> "S2" [] p = "P3" -> "S3" [] p = "P5" -> "S5" [] p = "P6" -> "S6" [] OTHER -> "S2"
+Sum(p) == CASE p = "P1" -> "S1" [] p = "P2" -> "S2" [] p = "P3" -> "S3" [] p = "P5" -> "S5" [] p = "P6" -> "S6" [] p = "P7" -> "S7" [] OTHER -> "S2"
 \* recorded comment -> comment of the spec; the text is its interned id plus the problems of that file it spells out
 AbsText(path, tid, carries) == [id |-> tid, m |-> {p \in Problems : PFile(p) = path /\ Sum(p) \in RangeSeq(carries)}]
 AbsComment(c) == [path |-> c.path, line |-> c.line, text |-> AbsText(c.path, c.tid, c.carries), nl |-> c.nl, mine |-> c.mine]
 AbsComments(s) == [k \in 1..Len(s) |-> AbsComment(s[k])]
-AbsPending(s) == [k \in 1..Len(s) |-> [path |-> s[k].path, line |-> s[k].line, text |-> AbsText(s[k].path, s[k].tid, s[k].carries)]]
+AbsPending(s) == [k \in 1..Len(s) |-> [path |-> s[k].path, line |-> s[k].line, text |-> AbsText(s[k].path, s[k].tid, s[k].carries),
+                                       anchor |-> s[k].anchor]]
 
 TraceInit == Init /\ l = 1 /\ cid = 0 /\ done = FALSE /\ tcfg = [plat |-> "none", max |-> 0, strip |-> FALSE, pad |-> 0, padf |-> 0, showdup |-> FALSE]
              /\ tstore = <<>> /\ tprev = NoInp /\ tprevCreates = 0 - 1 /\ tstreak = 0 /\ tmap = {}
@@ -49,7 +50,7 @@ TCase ==
      ELSE PrintT(<<"DRIFT", Rec.id, ToJson([what |-> "seed text", store |-> Rec.store])>>)
   /\ l' = l + 1 /\ UNCHANGED <<vars, done>>
 
-Sig(fails, o, rn) == [plat |-> o.plat, max |-> o.max, strip |-> tcfg.strip, pad |-> tcfg.pad, padf |-> tcfg.padf, run |-> rn, fails |-> fails,
+Sig(fails, o, rn) == [hit |-> o.hit, plat |-> o.plat, max |-> o.max, strip |-> tcfg.strip, pad |-> tcfg.pad, padf |-> tcfg.padf, run |-> rn, fails |-> fails,
                       reports |-> o.reports, var |-> o.var, prevSame |-> o.prevSame, prevCreates |-> o.prevCreates,
                       streak |-> o.streak,
                       before |-> [k \in 1..Len(o.before) |-> [path |-> o.before[k].path, line |-> o.before[k].line,
@@ -60,30 +61,34 @@ TRun ==
   /\ l <= Len(TraceLog) /\ Rec.ev = "Run" /\ Rec.id = cid
   /\ LET v == [shift |-> Rec.shift, mod |-> Rec.mod]
          R == RangeSeq(Rec.reports)
-         in == [reports |-> R, var |-> v]
+         ft == [op |-> Rec.fault.op, k |-> Rec.fault.k]
+         in == [reports |-> R, var |-> v, fault |-> ft]
          pend == AbsPending(Rec.pending)
          after == AbsComments(Rec.after)
          creates == AbsComments(Rec.creates)
          o == [plat |-> tcfg.plat, max |-> tcfg.max, reports |-> R, var |-> v,
                before |-> tstore, after |-> after, creates |-> creates, deleted |-> RangeSeq(Rec.deleted),
-               prevSame |-> (tprev = in), prevCreates |-> tprevCreates,
-               streak |-> IF tprev = in THEN tstreak + 1 ELSE 1]
+               hit |-> Rec.hit, err |-> (Rec.err # ""), nerrs |-> Rec.nerrs,
+               prevSame |-> SameResults(tprev, in), prevCreates |-> tprevCreates,
+               streak |-> IF Rec.hit THEN 0 ELSE IF SameResults(tprev, in) THEN tstreak + 1 ELSE 1]
          fails == DocFails(o)
          \* binding 1: makeComments
          mk == MakeComments(R, v)
          mkOK == /\ Len(mk) = Len(pend)
-                 /\ \A k \in 1..Len(mk) : mk[k].path = pend[k].path /\ mk[k].line = pend[k].line /\ mk[k].text.m = pend[k].text.m
+                 /\ \A k \in 1..Len(mk) : mk[k].path = pend[k].path /\ mk[k].line = pend[k].line /\ mk[k].text.m = pend[k].text.m /\ mk[k].anchor = pend[k].anchor
          newmap == tmap \cup (IF Len(mk) = Len(pend) THEN {<<mk[k].text, pend[k].text.id>> : k \in 1..Len(mk)} ELSE {})
          \* binding 2: updateDestination on the recorded pending comments
-         f == RunFold(tcfg, tstore, pend, v)
+         f == RunFold(tcfg, tstore, pend, v, ft)
          \* over REST only the calls that change the store are visible (creations, then deletions)
          storeCall(c) == c.op \in {"create", "delete"}
          foldOK == /\ IF Rec.callsobs THEN f.listed = Rec.listed /\ f.calls = Rec.calls
                                       ELSE SelectSeq(f.calls, storeCall) = Rec.calls
                    /\ f.creates = creates /\ f.deleted = RangeSeq(Rec.deleted) /\ f.after = after
+                   /\ f.hit = Rec.hit /\ f.err = (Rec.err # "") /\ f.nerrs = Rec.nerrs
      IN
-     /\ IF fails = {} /\ Rec.err = "" /\ AbsComments(Rec.before) = tstore THEN TRUE
-        ELSE PrintT(<<"VIOL", cid, ToJson(Sig(fails \cup (IF Rec.err = "" THEN {} ELSE {"Error"})
+     \* a run that fails although no platform call failed is an error of its own
+     /\ IF fails = {} /\ (Rec.err = "" \/ Rec.hit) /\ AbsComments(Rec.before) = tstore THEN TRUE
+        ELSE PrintT(<<"VIOL", cid, ToJson(Sig(fails \cup (IF Rec.err = "" \/ Rec.hit THEN {} ELSE {"Error"})
                                                    \cup (IF AbsComments(Rec.before) = tstore THEN {} ELSE {"StoreChangedBetweenRuns"}), o, Rec.run))>>)
      /\ IF mkOK /\ Bijective(newmap) THEN TRUE
         ELSE PrintT(<<"DRIFT", cid, ToJson([what |-> "makeComments", run |-> Rec.run, expected |-> mk, observed |-> Rec.pending])>>)
@@ -91,7 +96,7 @@ TRun ==
         ELSE PrintT(<<"DRIFT", cid, ToJson([what |-> "updateDestination", run |-> Rec.run,
                                             expected |-> [listed |-> f.listed, calls |-> f.calls, deleted |-> f.deleted, nafter |-> Len(f.after)],
                                             observed |-> [listed |-> Rec.listed, calls |-> Rec.calls, deleted |-> Rec.deleted, nafter |-> Len(after)]])>>)
-     /\ tstore' = after /\ tprev' = in /\ tprevCreates' = Len(creates) /\ tstreak' = o.streak /\ tmap' = newmap
+     /\ tstore' = after /\ tprev' = in /\ tprevCreates' = (IF Rec.hit THEN 0 - 1 ELSE Len(creates)) /\ tstreak' = o.streak /\ tmap' = newmap
   /\ l' = l + 1 /\ UNCHANGED <<vars, cid, done, tcfg>>
 
 TDone ==
